@@ -23,6 +23,7 @@ from dateutil.relativedelta import relativedelta
 from math import trunc, ceil, floor
 from typing import Dict, List, Literal, Any, Callable
 import calendar
+import decimal
 import re
 from itertools import zip_longest
 
@@ -342,16 +343,23 @@ class ExcelInPython:
 
         return result
 
+    def _decimal_round(self, number: float, num_digits: int, rounding: str):
+        # Excel rounds the decimal value of the number (half away from zero, away from zero, toward zero),
+        # not its binary representation: ROUND(0.0045, 3) is 0.005 and ROUNDUP(-0.0001, 0) is -1
+        with decimal.localcontext() as context:
+            context.prec = 400
+            result = decimal.Decimal(repr(float(number))).quantize(
+                decimal.Decimal(1).scaleb(-int(num_digits)), rounding=rounding)
+        return int(result) if type(number) is int else float(result)
+
     def _round(self, number: float, num_digits: int):
-        return round(number, int(num_digits))
+        return self._decimal_round(number, num_digits, decimal.ROUND_HALF_UP)
 
     def _roundup(self, number: float, num_digits: int):
-        factor = 10 ** num_digits
-        return ceil(number * factor) / factor
+        return self._decimal_round(number, num_digits, decimal.ROUND_UP)
 
     def _rounddown(self, number: float, num_digits: int):
-        factor = 10 ** num_digits
-        return floor(number * factor) / factor
+        return self._decimal_round(number, num_digits, decimal.ROUND_DOWN)
 
     def _date(self, year: int, month: int, day: int):
         if isinstance(year, str):
